@@ -7,9 +7,10 @@ hash (C01), and its hashed properties are the same.
 -/
 import EdxmlProps.C09
 import EdxmlProps.Lemmas.GateMono
+import EdxmlProps.C04
 import EdxmlModel.Ontology.Compat
 namespace EdxmlProps.C10
-open Edxml Edxml.Ont Edxml.Gate EdxmlProps.C09
+open Edxml Edxml.Ont Edxml.Gate EdxmlProps.C09 EdxmlProps.C04
 
 /-! ### object types: the value space never shrinks -/
 
@@ -313,6 +314,50 @@ theorem accepted_upgrade_keeps_hash (sem : RegexSem) (cls : String → Bool × B
     rw [hn', hn, hm] at e2
     cases h1 : (hashedOfType a).contains pv.1 <;> cases h2 : (hashedOfType b).contains pv.1 <;> simp_all
   rw [this]
+
+/-- C10: merging colliding events that are valid under the old definition gives the same result under an
+accepted upgrade of the event type: the same object sets for every property, the same parents, or
+the same error -/
+theorem accepted_upgrade_keeps_merge (sem : RegexSem) (cls : String → Bool × Bool × Bool)
+    (ots : List ObjectTypeDef) (a b : EventTypeDef) (ha : EtWF a) (hb : EtWF b)
+    (h : cmpEventType a b = .lt) (vp : Option String) (es : List Event)
+    (hv : ∀ e ∈ es, validUnder sem cls ots a e = true) :
+    (∀ r, mergeEvents (mergeSpecs ots a) vp es = .ok r → ∃ r', mergeEvents (mergeSpecs ots b) vp es = .ok r' ∧
+        (∀ p, r'.objects p = r.objects p) ∧ r'.parents = r.parents ∧ r'.type = r.type ∧ r'.source = r.source ∧ r'.atts = r.atts) ∧
+    (∀ err, mergeEvents (mergeSpecs ots a) vp es = .error err → mergeEvents (mergeSpecs ots b) vp es = .error err) := by
+  have he := eventType_upgrade_facts a b ha h
+  have names : ∀ (et : EventTypeDef), (mergeSpecs ots et).map (·.name) = et.props.map (·.name) := by
+    intro et; simp [mergeSpecs, List.map_map, Function.comp_def]
+  have old_kept : ∀ p ∈ a.props, ∃ p' ∈ b.props, p'.name = p.name ∧
+      (⟨p'.name, strategyOf p'.merge, numericDt (((findBy (·.name) p'.objectType ots).map (·.dataType)).getD "")⟩ : PropSpec) =
+      ⟨p.name, strategyOf p.merge, numericDt (((findBy (·.name) p.objectType ots).map (·.dataType)).getD "")⟩ := by
+    intro p hp
+    obtain ⟨p', hp', hn, ho, hm, _⟩ := he.props p hp
+    exact ⟨p', hp', hn, by rw [hn, ho, hm]⟩
+  apply merge_spec_extension (mergeSpecs ots a) (mergeSpecs ots b) (by rw [names]; exact hb.props)
+  · intro s hs
+    simp only [mergeSpecs, List.mem_map] at hs ⊢
+    obtain ⟨p, hp, rfl⟩ := hs
+    obtain ⟨p', hp', _, heq⟩ := old_kept p hp
+    exact ⟨p', hp', heq⟩
+  · intro s' hs'
+    simp only [mergeSpecs, List.mem_map] at hs'
+    obtain ⟨p', hp', rfl⟩ := hs'
+    by_cases hex : ∃ p ∈ a.props, p.name = p'.name
+    · left
+      obtain ⟨p, hp, hpn⟩ := hex
+      obtain ⟨p'', hp'', hn'', heq⟩ := old_kept p hp
+      have : p'' = p' := nodup_map_inj _ b.props hb.props p'' hp'' p' hp' (by rw [hn'', hpn])
+      subst this
+      simp only [mergeSpecs, List.mem_map]
+      exact ⟨p, hp, heq.symm⟩
+    · right
+      intro e hee
+      apply objects_absent_pairs
+      intro pv hpv hname
+      obtain ⟨q, hq, hqn⟩ := declared_of_valid sem cls ots a e (hv e hee) pv hpv
+      exact hex ⟨q, hq, by rw [hqn]; exact hname⟩
+  · rw [names]; exact ha.props
 
 /-! ### rejected changes -/
 
